@@ -24,7 +24,7 @@ RULE = ("sessions of <= 200 well-framed messages against one default-config conn
         "-3..40, per-handler argument templates with the right arity (object = identifier harvested from this connection / "
         "from a sibling connection to the same service / forged from ids of objects never sent; names from a vocabulary of "
         "denied, dunder and exposed names; comparison-operator names; pickle protocol numbers) as well as arguments built from "
-        "all four labels and invalid labels with arbitrary payloads; arbitrary sequence numbers; replies/exceptions that "
+        "all four labels and invalid labels with arbitrary payloads, id-pack-shaped tuples with references inside; arbitrary sequence numbers; replies/exceptions that "
         "answer the server's own requests with hostile method lists or crafted exception records. distinct = the message "
         "bytes modulo identifiers; non-trivial = every message (each is dispatched by the real connection)")
 ASSUMPTIONS = ["default configuration, except sync_request_timeout=2 s on the serving side so that an unanswered INSPECT does not "
